@@ -21,6 +21,8 @@ class Transc (α : Type) where
   log : α → α
   sin : α → α
   cos : α → α
+  /-- `np.log1p` (`log (1 + x)`, accurate for tiny `x`) -/
+  log1p : α → α
 
 /-- complex numbers `K` over the reals `α` -/
 class CxOps (α : outParam Type) (K : Type) where
@@ -30,7 +32,7 @@ class CxOps (α : outParam Type) (K : Type) where
   re : K → α
   im : K → α
 
-export Transc (sqrt exp log sin cos)
+export Transc (sqrt exp log sin cos log1p)
 export CxOps (ofReal)
 
 variable {α K : Type}
@@ -56,7 +58,7 @@ variable [Zero α] [One α] [Add α] [Sub α] [Neg α] [Mul α] [Div α] [LT α]
 /-- `_np_softplus` (`_internal.py:172-175`): `log1p(exp(-sign(x) x)) + (1+sign(x))/2 x`; `torch.nn.functional.softplus`
 is the same function. -/
 def softplus (x : α) : α :=
-  if 0 < x then log (1 + exp (-x)) + x else log (1 + exp x)
+  if 0 < x then log1p (exp (-x)) + x else log1p (exp x)
 
 /-- `to_positive_real_exp` -/
 def expMap (x : α) : α := exp x
@@ -360,7 +362,10 @@ def inv (a : CF) : CF := let d := a.normSq; ⟨a.re / d, -a.im / d⟩
 def smul (x : Float) (a : CF) : CF := ⟨x * a.re, x * a.im⟩
 end CF
 
-instance : Transc Float := ⟨Float.sqrt, Float.exp, Float.log, Float.sin, Float.cos⟩
+/-- `log1p` in binary64 (Kahan's correction; `Float` has no `log1p`) -/
+def floatLog1p (y : Float) : Float := let u := 1 + y; if u == 1 then y else Float.log u * y / (u - 1)
+
+instance : Transc Float := ⟨Float.sqrt, Float.exp, Float.log, Float.sin, Float.cos, floatLog1p⟩
 instance : CxOps Float CF := ⟨fun x => ⟨x, 0⟩, CF.conj, ⟨0, 1⟩, CF.re, CF.im⟩
 
 /-- Gell-Mann scalars in binary64, complex carrier -/
